@@ -9,6 +9,7 @@ import (
 	"fmt"
 	"math"
 	"math/rand"
+	"net"
 	"sort"
 	"sync"
 	"time"
@@ -39,6 +40,10 @@ type faultScn struct {
 	Reclaim  time.Duration `json:"dead_node_reclaim_ns"`
 	Actions  []faultAction `json:"actions"`
 	TStop    time.Duration `json:"t_stop_ns"`
+	// rarely used configurations (zero values = the defaults used before these were added)
+	V6          bool `json:"ipv6,omitempty"`            // every node lives on a 16-byte address
+	Plain       bool `json:"plain_transport,omitempty"` // the transport implements only Transport (memberlist's shim supplies the node-aware calls)
+	GossipNodes int  `json:"gossip_nodes,omitempty"`    // 0 = library default
 }
 
 type chaosNode struct {
@@ -93,6 +98,12 @@ func (ch *Chaos) spec(cn *chaosNode) NodeSpec {
 		cf.PushPullInterval = sc.PushPull
 		cf.GossipToTheDeadTime = sc.DeadTime
 		cf.DeadNodeReclaimTime = sc.Reclaim
+		if sc.GossipNodes > 0 {
+			cf.GossipNodes = sc.GossipNodes
+		}
+		if sc.Plain {
+			cf.Transport = plainTransport{cf.Transport.(*Endpoint)}
+		}
 		if ch.key != nil {
 			ring, _ := memberlist.NewKeyring(nil, ch.key)
 			cf.Keyring = ring
@@ -139,7 +150,7 @@ func NewChaos(seed int64, sc faultScn, rng *rand.Rand) (*Chaos, error) {
 	}
 	ch.C.Net.DialFailDelay = 0
 	for i := 0; i < sc.N; i++ {
-		cn := &chaosNode{Idx: i, Name: fmt.Sprintf("n%d", i), IP: fmt.Sprintf("10.1.0.%d", i+1)}
+		cn := &chaosNode{Idx: i, Name: fmt.Sprintf("n%d", i), IP: ch.ip(i)}
 		nd, err := ch.C.Add(ch.spec(cn))
 		if err != nil {
 			return nil, err
@@ -154,7 +165,38 @@ func NewChaos(seed int64, sc faultScn, rng *rand.Rand) (*Chaos, error) {
 	return ch, nil
 }
 
-func (ch *Chaos) addr(i int) string { return fmt.Sprintf("10.1.0.%d:7946", i+1) }
+// rareConfig draws the rarely used configuration dimensions; called last by the generators, so that the
+// fault scripts of a seed stay what they were before these dimensions existed.
+func (sc *faultScn) rareConfig(rng *rand.Rand) {
+	sc.V6 = rng.Intn(5) == 0
+	sc.Plain = rng.Intn(5) == 0
+	sc.GossipNodes = []int{0, 0, 1, 6}[rng.Intn(4)]
+}
+
+func (ch *Chaos) ip(i int) string {
+	if ch.Scn.V6 {
+		return fmt.Sprintf("fd00:1::%x", i+1)
+	}
+	return fmt.Sprintf("10.1.0.%d", i+1)
+}
+
+func (ch *Chaos) addr(i int) string { return net.JoinHostPort(ch.ip(i), "7946") }
+
+// plainTransport hides the node-aware half of the simulated endpoint, so that memberlist wraps it in its own
+// shim (addresses only, no node names) as it does for third-party transports written against the older interface.
+type plainTransport struct{ e *Endpoint }
+
+func (p plainTransport) FinalAdvertiseAddr(ip string, port int) (net.IP, int, error) {
+	return p.e.FinalAdvertiseAddr(ip, port)
+}
+func (p plainTransport) WriteTo(b []byte, addr string) (time.Time, error) { return p.e.WriteTo(b, addr) }
+func (p plainTransport) PacketCh() <-chan *memberlist.Packet               { return p.e.PacketCh() }
+func (p plainTransport) DialTimeout(addr string, timeout time.Duration) (net.Conn, error) {
+	return p.e.DialTimeout(addr, timeout)
+}
+func (p plainTransport) StreamCh() <-chan net.Conn { return p.e.StreamCh() }
+func (p plainTransport) Shutdown() error           { return p.e.Shutdown() }
+
 
 func (ch *Chaos) apply(a faultAction) {
 	switch a.Kind {
